@@ -267,7 +267,7 @@ def gen_join_spec(rng, max_rows=8, how=None, nkeys=None, unique_left=None, uniqu
 			"key_mode": key_mode, "single_as_scalar": rng.random() < 0.5, "expect": "many_to_many", "kinds": kinds}
 	return {"op": "join", "how": how or rng.choice(["inner", "left", "full"]), "left": left, "right": right,
 		"lon": [f"k{i}" for i in range(nkeys)], "ron": [(f"k{i}" if same_names else f"r{i}") for i in range(nkeys)],
-		"key_mode": key_mode, "single_as_scalar": rng.random() < 0.5, "expect": "many_to_many", "kinds": kinds}
+		"key_mode": key_mode, "single_as_scalar": rng.choice([True, False, "left-only", "right-only"]), "expect": "many_to_many", "kinds": kinds}
 
 
 def gen_join_spec_named(rng, **kw):
@@ -329,7 +329,11 @@ def do_join(spec, how=None, expect=None):
 		lon = [Vector(list(c)) for c in key_values(spec["left"], lon)]
 		ron = [Vector(list(c)) for c in key_values(spec["right"], ron)]
 		# zero-row external vectors carry no schema; serif accepts them
-	if len(lon) == 1 and spec.get("single_as_scalar"):
+	if len(lon) == 1 and spec.get("single_as_scalar") == "left-only":
+		lon = lon[0]
+	elif len(lon) == 1 and spec.get("single_as_scalar") == "right-only":
+		ron = ron[0]
+	elif len(lon) == 1 and spec.get("single_as_scalar"):
 		lon, ron = lon[0], ron[0]
 	how = how or spec["how"]
 	fn = {"inner": L.inner_join, "left": L.join, "full": L.full_join}[how]
